@@ -260,8 +260,8 @@ def inputs_json(p, **kw):
 # ----------------------------------------------------------------------------- case generation
 def tiers(tier):
     if tier == "quick":
-        return dict(nprob=30, npass=40, nfista=24, nas=56, nadmm=10, aswarm=80, ncold=12, nfista2=10, nseq=8, ncall=8, nadmmloop=16, nadmmpred=12)
-    return dict(nprob=240, npass=400, nfista=160, nas=640, nadmm=60, aswarm=1500, ncold=100, nfista2=80, nseq=80, ncall=48, nadmmloop=130, nadmmpred=100)
+        return dict(nprob=30, npass=40, nfista=24, nas=56, nadmm=10, aswarm=80, ncold=12, nfista2=10, nseq=8, ncall=8, nadmmloop=16, nadmmpred=12, nadmmnn=6)
+    return dict(nprob=240, npass=400, nfista=160, nas=640, nadmm=60, aswarm=1500, ncold=100, nfista2=80, nseq=80, ncall=48, nadmmloop=130, nadmmpred=100, nadmmnn=60)
 
 
 def dyadic_start(rng, r, n, kind):
@@ -925,6 +925,7 @@ def run(chk):
     # ---------------- F. the whole function admm (loop, proximal_operator call with n_const / order, stopping rule, raising calls)
     C13_admm.run_cases(chk, rng, T["nadmmloop"], admm, add_case, gen_problem, dyadic_start, impl_call, mat_lit, Skip)
     C13_admm.run_predicates(chk, rng, T["nadmmpred"], admm, gen_problem, dyadic_start, impl_call, Skip)
+    C13_admm.run_nonneg_predicates(chk, rng, T["nadmmnn"], admm, gen_problem, dyadic_start, impl_call, Skip)
 
     # ---------------- evaluate the correspondence inside Coq
     failing, n_eval, broken = C.run_case_shards("C13", HEADER, "case", cases, shard=24 if chk.tier == "quick" else 30, timeout=3000)
@@ -948,7 +949,7 @@ def run(chk):
                        "'run to convergence' is a limit statement: proved are monotone descent + fixed point <=> KKT => optimal; that the returned point is an approximate fixed point is measured (CConv)"]
     chk.trusted = ["scipy.optimize.nnls as independent reference (objective value only)",
                    "static tie (C13_tie.py): the translator from the Python ast to Gallina terms is trusted to render the arithmetic faithfully (it knows only +, -, *, /, clip, where, dot, "
-                   "transpose, sum, abs, copy, solve and fails closed on anything else); what it does not translate (callback / exact, the list branch, try / except and block solves of active_set_nnls, validate_constraints) is tied by the differential correspondence only",
+                   "transpose, sum, abs, copy, solve and fails closed on anything else); what it does not translate (the list branch, try / except and block solves of active_set_nnls, validate_constraints) is tied by the differential correspondence only",
                    "the leading singular value (numpy 2-norm) enters the model as recorded data; the FISTA momentum coefficients are computed in the model (2^-60 square root) and compared with the recorded float sequence to 1e-14, the iterations are evaluated with the recorded values",
                    "admm (whole function): norms compared in squared form (C13_admm_norm_test_is_norm_test), validate_constraints modelled for one scalar constraint or none and orders >= 0",
                    "stopping decisions: when every decision e < t of the model's run is clear-cut (|e - t| > 1e-6 (|e| + |t|)) the implementation must return the model's result; only borderline decisions (incl. e = t = 0) fall back to accepting any prefix iterate"]
